@@ -19,6 +19,13 @@
 //! c2pa_error(); all arguments valid => no handle-related error (NullParameter / UntrackedPointer / WrongPointerType);
 //! free of a live handle returns 0 exactly once, afterwards -1 unless the address was re-issued; the child never dies.
 //!
+//! Missed once, now caught: an independently seeded change (a thread-local "last validated pointer" fast path in
+//! PointerRegistry::validate that untrack() does not invalidate) needs borrow(h) · consume(h) without re-issuing the address ·
+//! borrow(h): depth 4, and the BFS merged "h just validated" with "h not looked at". Since then: (a) failing forms of the
+//! consuming entry points are in the alphabet, (b) the targeted use/consume/use-again shapes are enumerated unreduced in both
+//! tiers, (c) the abstract state records which handle was validated last. tools/mutant_run.sh F /tmp/seed-C31/OUT/patch.diff C31 quick
+//! -> 38 keys (`no-error-indicator fn=c2pa_builder_set_intent arg0=builder:freed`, `... fn=c2pa_reader_is_embedded arg0=reader:freed`, crashes).
+//!
 //! Mutants caught (tools/mutant_run.sh F <diff> C31 quick):
 //!  * /verif/mutants/C31-build-no-untrack.diff   (c2pa_context_builder_build consumes the builder without untracking it)
 //!      -> `crash fn=c2pa_free args=[any:freed] how=SIGSEGV` (double free of the consumed builder), same for every typed free
@@ -1556,7 +1563,7 @@ fn targeted_units() -> Vec<Unit> {
                     let ps = o.f.params();
                     // the other arguments: valid or NULL (the failing forms); the remaining misuse classes of the other
                     // arguments are covered by the BFS and add nothing to this shape
-                    o.args.iter().all(|a| matches!(a, A::Slot(_) | A::Null | A::Amb)) && o.args.iter().enumerate().any(|(j, a)| {
+                    o.args.iter().enumerate().all(|(j, a)| *a == A::Slot(h) || *a == A::Null || before.validity(ps[j], *a) == Validity::Valid) && o.args.iter().enumerate().any(|(j, a)| {
                         *a == A::Slot(h)
                             && match ps[j] {
                                 // the typed frees all go through the same cimpl_free; two of them stand for the family here
@@ -1588,6 +1595,10 @@ fn targeted_units() -> Vec<Unit> {
                 .collect();
             if finals.is_empty() {
                 continue;
+            }
+            if std::env::var("VERIF_C31_DEBUG").is_ok() {
+                eprintln!("targeted setup {:?} helper {:?}: borrows {} consumes {} finals {}", ctor.f.name(), helper.as_ref().map(|h| h.0.f.name()), borrows.len(), consumes.len(), finals.len());
+                eprintln!("   consumes: {:?}", consumes.iter().map(|o| o.text()).collect::<Vec<_>>());
             }
             for b in &borrows {
                 for c in &consumes {
@@ -1675,6 +1686,11 @@ pub fn run(run: &Run, replay: Option<&Value>) {
         }
     }
 
+    if std::env::var("VERIF_C31_DEBUG").is_ok() {
+        let u = targeted_units();
+        eprintln!("targeted: {} units, {} sequences", u.len(), u.iter().map(|x| x.ops.len()).sum::<usize>());
+        std::process::exit(0);
+    }
     if std::env::var("VERIF_C31_MEMCHECK_TEST").is_ok() {
         // development aid: only the memcheck machinery, on two small units
         let s = |f: F, a: Vec<A>| Op { f, args: a };
